@@ -66,11 +66,112 @@ fn c09() -> (usize, Vec<String>) {
     (runs, bad)
 }
 
+fn probs_of(s: &cfr::Strategies<String, String>) -> Vec<(String, String, f64)> {
+    let mut out = Vec::new();
+    for (pi, it) in s.as_named().into_iter().enumerate() {
+        for (i, acts) in it {
+            for (a, p) in acts {
+                out.push((format!("{pi}:{i}"), a.clone(), p));
+            }
+        }
+    }
+    out.sort_by(|x, y| (x.0.clone(), x.1.clone()).cmp(&(y.0.clone(), y.1.clone())));
+    out
+}
+
+fn max_diff(a: &[(String, String, f64)], b: &[(String, String, f64)]) -> f64 {
+    // zero-probability actions are omitted from the view: compare as maps
+    use std::collections::BTreeMap;
+    let ma: BTreeMap<_, _> = a.iter().map(|(i, x, p)| ((i.clone(), x.clone()), *p)).collect();
+    let mb: BTreeMap<_, _> = b.iter().map(|(i, x, p)| ((i.clone(), x.clone()), *p)).collect();
+    let mut d: f64 = 0.0;
+    for (k, p) in ma.iter() {
+        d = d.max((p - mb.get(k).copied().unwrap_or(0.0)).abs());
+    }
+    for (k, p) in mb.iter() {
+        d = d.max((p - ma.get(k).copied().unwrap_or(0.0)).abs());
+    }
+    d
+}
+
+/// C06 (and the deterministic part of C07): 1 thread versus k threads, Full on every family game and
+/// Sampled on the chance-free ones (where chance sampling has nothing to sample).
+fn threads(methods: &[(SolveMethod, bool)]) -> (usize, Vec<String>) {
+    let mut bad = Vec::new();
+    let mut runs = 0usize;
+    for &(method, with_chance) in methods {
+        for (gname, game) in family(with_chance) {
+            for (pname, params) in [("vanilla", RegretParams::vanilla()), ("dcfr", RegretParams::dcfr())] {
+                for t in [1u64, 2, 3, 4, 7] {
+                    let (s1, b1) = game.solve(method, t, 0.0, 1, Some(params)).unwrap();
+                    let p1 = probs_of(&s1);
+                    for k in [2usize, 3, 4, 6] {
+                        runs += 1;
+                        let (sk, bk) = game.solve(method, t, 0.0, k, Some(params)).unwrap();
+                        let d = max_diff(&p1, &probs_of(&sk));
+                        let db = (b1.regret_bound() - bk.regret_bound()).abs();
+                        if !(d <= 1e-9) || !(db <= 1e-9 * (1.0 + b1.regret_bound().abs())) {
+                            if bad.len() < 5 {
+                                bad.push(format!("game={gname} method={method:?} params={pname} T={t} threads={k}: strategies differ by {d:e}, bound by {db:e}"));
+                            } else {
+                                bad.push(String::new());
+                            }
+                        }
+                    }
+                }
+            }
+        }
+    }
+    (runs, bad)
+}
+
+/// C07 (randomised part): multi-threaded sampled solvers must never panic (two workers meeting at
+/// one infoset) and must return valid profiles with small true regret after many iterations.
+fn sampled_multi() -> (usize, Vec<String>) {
+    let mut bad = Vec::new();
+    let mut runs = 0usize;
+    for (gname, game) in family(true) {
+        for method in [SolveMethod::External, SolveMethod::Sampled] {
+            for k in [2usize, 4] {
+                for rep in 0..3 {
+                    runs += 1;
+                    let res = std::panic::catch_unwind(std::panic::AssertUnwindSafe(|| {
+                        let (s, _) = game.solve(method, 400, 0.0, k, Some(RegretParams::vanilla())).unwrap();
+                        let (s1, _) = game.solve(method, 400, 0.0, 1, Some(RegretParams::vanilla())).unwrap();
+                        (s.get_info().regret(), s1.get_info().regret())
+                    }));
+                    let msg = match res {
+                        Err(_) => Some("panicked".to_string()),
+                        Ok((rk, r1)) if !(rk.is_finite()) => Some(format!("regret {rk}")),
+                        Ok((rk, r1)) if rk > 10.0 * r1 + 0.5 => Some(format!("regret {rk:.3} with {k} threads versus {r1:.3} with one")),
+                        _ => None,
+                    };
+                    if let Some(m) = msg {
+                        if bad.len() < 5 {
+                            bad.push(format!("game={gname} method={method:?} threads={k} rep={rep}: {m}"));
+                        } else {
+                            bad.push(String::new());
+                        }
+                    }
+                }
+            }
+        }
+    }
+    (runs, bad)
+}
+
 fn main() {
     let args: Vec<String> = std::env::args().collect();
     let which = args.get(1).map(|s| s.as_str()).unwrap_or("");
     let (runs, bad) = match which {
         "c09" => c09(),
+        "c06" => threads(&[(SolveMethod::Full, true), (SolveMethod::Full, false)]),
+        "c07" => {
+            let (r1, mut b1) = threads(&[(SolveMethod::Sampled, false)]);
+            let (r2, b2) = sampled_multi();
+            b1.extend(b2);
+            (r1 + r2, b1)
+        }
         _ => {
             eprintln!("usage: verif-replay c09");
             std::process::exit(2);
